@@ -158,3 +158,61 @@ void h_ec_undo_redo(void)
 	__CPROVER_assert(0, "canary");
 #endif
 }
+
+
+/* ================================================================== ec_source (":so file": the file's text is executed as ex commands) (C05, C06) */
+struct ghost_so_in { int has_cur, open_ok; } SOI;
+struct ghost_so { int open_calls, reads, chunks, appended, cmd_calls, eof, bad; char *cmd_text; } SO;
+static char g_sopath[2], g_sotext[2];
+static struct sbuf { int d; } g_sosb;
+char *ex_path(void) { return SOI.has_cur ? g_sopath : (char *) 0; }
+static int verif_open(const char *path, int flags)
+{
+	__CPROVER_assert(path != 0, "open: path is not NULL");
+	SO.open_calls++;
+	return SOI.open_ok ? 7 : -1;
+}
+ssize_t read(int fd, void *buf, size_t n)
+{
+	__CPROVER_assert(fd == 7 && __CPROVER_w_ok(buf, n), "read: the opened file, a writable buffer");
+	long r = nondet_long();
+	__CPROVER_assume(-1 <= r && r <= (long) n);
+	SO.reads = SO.reads < 1000000 ? SO.reads + 1 : 1000000;
+	if (SO.eof)
+		SO.bad = 1;	/* reading on after the end */
+	if (r > 0)
+		SO.chunks = SO.chunks < 1000000 ? SO.chunks + 1 : 1000000;
+	else
+		SO.eof = 1;
+	return r;
+}
+struct sbuf *sbuf_make(void) { return &g_sosb; }
+void sbuf_mem(struct sbuf *sb, char *s, int len) { SO.appended = SO.appended < 1000000 ? SO.appended + 1 : 1000000; }
+char *sbuf_buf(struct sbuf *sb) { return g_sotext; }
+void sbuf_free(struct sbuf *sb) { }
+int ex_command(char *ln) { SO.cmd_calls++; SO.cmd_text = ln; return nondet_int(); }
+int ec_source_frame_contract(char *loc, char *cmd, char *arg, char *txt)
+__CPROVER_requires(arg != 0)
+__CPROVER_assigns(SO, MK)
+;
+void h_ec_source(void)
+{
+	char loc[2], cmd[3], arg[2];
+	MK_INIT();
+	SOI.has_cur = nondet_bool(); SOI.open_ok = nondet_bool();
+	loc[0] = 0; cmd[0] = 's'; cmd[1] = 'o'; cmd[2] = 0; arg[0] = nondet_char(); arg[1] = 0;
+	g_sopath[0] = nondet_char(); g_sopath[1] = 0;
+	g_target[0] = nondet_char();
+	SO.open_calls = SO.reads = SO.chunks = SO.appended = SO.cmd_calls = SO.eof = SO.bad = 0;
+	int ret = ec_source(loc, cmd, arg, 0);
+	char *path = arg[0] ? (MKI.expand_ok ? g_target : (char *) 0) : (SOI.has_cur ? g_sopath : (char *) 0);
+	if (!path || !path[0] || !SOI.open_ok) {
+		H_ASSERT(ret == 1 && SO.cmd_calls == 0 && SO.reads == 0, "ec_source: no path (a % or # that is not set included), an empty path or a file that cannot be opened: the command fails, nothing is executed");
+	} else {
+		H_ASSERT(ret == 0 && !SO.bad && SO.eof && SO.appended == SO.chunks, "ec_source: the file is read to its end, every chunk appended once");
+		H_ASSERT(SO.cmd_calls == 1 && SO.cmd_text == g_sotext, "ec_source: the text read is executed once as ex commands");
+	}
+#ifdef CANARY
+	__CPROVER_assert(0, "canary");
+#endif
+}
